@@ -97,3 +97,23 @@ def build_replay(features=()):
     if p.returncode != 0:
         raise RuntimeError('replay build failed:\n' + p.stderr[-3000:])
     return os.path.join(env['CARGO_TARGET_DIR'], 'debug', 'replay')
+
+
+def build_probe():
+    """Build the compile probe (replay/probe: valid generic items whose expansion has to compile). Returns (ok, error_text)."""
+    pdir = os.path.join(VERIF, 'replay', 'probe')
+    if REPO != '/repo' or WORK != os.path.join(VERIF, 'work'):
+        p2 = os.path.join(WORK, 'probe-crate')
+        os.makedirs(os.path.join(p2, 'src'), exist_ok=True)
+        shutil.copy(os.path.join(pdir, 'src', 'lib.rs'), os.path.join(p2, 'src', 'lib.rs'))
+        open(os.path.join(p2, 'Cargo.toml'), 'w').write(open(os.path.join(pdir, 'Cargo.toml')).read().replace('"/repo/ts-rs"', f'"{REPO}/ts-rs"'))
+        pdir = p2
+    lock = os.path.join(pdir, 'Cargo.lock')
+    if not os.path.exists(lock):
+        shutil.copy(os.path.join(REPO, 'Cargo.lock'), lock)
+    env = dict(os.environ)
+    env['CARGO_NET_OFFLINE'] = 'true'
+    env['CARGO_TARGET_DIR'] = os.path.join(WORK, 'probe-target')
+    p = subprocess.run(['cargo', 'build', '--offline', '--quiet', '--manifest-path', os.path.join(pdir, 'Cargo.toml')], env=env, capture_output=True, text=True)
+    errs = [l for l in p.stderr.splitlines() if l.startswith('error')]
+    return p.returncode == 0, '\n'.join(p.stderr.splitlines()[-60:]) if p.returncode else '', errs[:6]
